@@ -157,7 +157,7 @@ func c08Run(c *h.Ctx) {
 	po := PlayOpts{
 		Hands:    8 + r.Intn(10),
 		Churn:    Churn{BetweenP: 0.6, MidP: 0.15, Rebuy: true, BuyIn: true, Leave: true, AddOn: true, MidTopup: true, MidJoin: true, MidLeaveOther: true, RandomSeat: true, ResumePaused: true, SitOut: true, Batch: true, TableLevelGuard: true},
-		Gen:      h.GenOpts{MinSeats: 2, ShortStacks: true, VaryMinCount: true},
+		Gen:      h.GenOpts{MinSeats: 2, ShortStacks: true, VaryMinCount: true, MTTPastDuration: true},
 		Policies: []string{"maniac", "maniac", "callstation", "random"},
 		Decks:    []string{"rank", "seeded"},
 		MaxWait:  42 * time.Second,
@@ -284,6 +284,14 @@ func c08Run(c *h.Ctx) {
 	}
 	_ = lastSettle
 	c.FP(fmt.Sprintf("%+v", p.Cfg), fmt.Sprintf("%+v", p.Ops), len(p.SS.Hands))
+	if p.Cfg.MaxDuration < 0 {
+		c.Feature("mtt-table-past-its-duration")
+	}
+	if hd := p.CurHand; hd != nil && hd.AutoEnd && p.Cfg.Mode == "mtt" && !c.Failed() {
+		// the maximum duration ends automatic opening on ct / cash tables only; an mtt table goes on as ever
+		c.Violate("C08/next-hand-not-opened/auto-open-ended-on-mtt-table", fmt.Sprintf("after hand %d the mtt table announced the end of automatic opening (maximum duration %d s) instead of pausing or dealing on", p.HandNo, p.Cfg.MaxDuration), p.witness())
+		return
+	}
 	c.Count("prompt_opens", int64(st.promptOpens))
 	c.Count("opens_after_more_than_1.5s", int64(st.timeoutOpens))
 	if p.Stalled && !c.Failed() {
@@ -456,7 +464,7 @@ func init() {
 		Cases:         func(tier string) int { return map[string]int{"quick": 240, "thorough": 4000}[tier] },
 		MinNontrivial: func(tier string) int { return map[string]int{"quick": 120, "thorough": 2000}[tier] },
 		RequiredFeatures: func(string) []string {
-			return []string{"decision:pause", "decision:deal-on", "continue-after-bust", "continue-with-waiting-or-new-player", "signals:one-withheld", "signals:repeated", "busted-bystander-topped-up-mid-hand", "interval1:pause", "interval1:set-up", "interval1:opened", "late-sit-in-during-open-retry"}
+			return []string{"decision:pause", "decision:deal-on", "continue-after-bust", "continue-with-waiting-or-new-player", "signals:one-withheld", "signals:repeated", "busted-bystander-topped-up-mid-hand", "interval1:pause", "interval1:set-up", "interval1:opened", "late-sit-in-during-open-retry", "mtt-table-past-its-duration"}
 		},
 		CaseTimeout: 400e9,
 		InProc:      2,
